@@ -197,7 +197,18 @@ fn translate_head(
         },
         SExp::Integer(l, i) => match prim_map.get(&u8_from_number(i.clone())) {
             None => Ok(sexp.clone()),
-            Some(v) => Ok(Rc::new(v.with_loc(l.clone()))),
+            Some(v) => {
+                // 61 ('%') spells "=", 62 ('keccak256') spells ">": an integer that
+                // already is a primitive's opcode must not be re-read as a name.
+                let is_opcode = prim_map
+                    .values()
+                    .any(|p| matches!(p.borrow(), SExp::Integer(_, n) if n == i));
+                if is_opcode {
+                    Ok(sexp.clone())
+                } else {
+                    Ok(Rc::new(v.with_loc(l.clone())))
+                }
+            }
         },
         SExp::Cons(_l, _a, nil) => match nil.borrow() {
             SExp::Nil(_l1) => run(
